@@ -7,6 +7,7 @@ import (
 	"fmt"
 	"math/rand"
 	"regexp"
+	"runtime"
 	"strings"
 	"sync"
 	"sync/atomic"
@@ -384,12 +385,158 @@ func memoKeys(rep *concReport) {
 	}
 	s := guarded(5*time.Second, func() { inv2([]int{1}); inv2([]int{1}); inv2(map[string]int{}) })
 	rep.add("memokey-unmappable", s == "" && m == 3, "calls=%d %s", m, s)
+	// unhashable values hidden inside hashable-looking static types: struct fields (any position), arrays, nesting
+	type kFirst struct {
+		Payload any
+		Shard   int
+	}
+	type kMid struct {
+		A int
+		P any
+		B string
+	}
+	type kNest struct {
+		N  int
+		In kFirst
+		Z  int
+	}
+	shapes := []struct {
+		name      string
+		hashable  any
+		unhashble any
+	}{
+		{"struct-iface-first", kFirst{"x", 1}, kFirst{[]int{1}, 1}},
+		{"struct-iface-middle", kMid{1, 2, "b"}, kMid{1, map[int]int{}, "b"}},
+		{"struct-nested", kNest{1, kFirst{3, 4}, 5}, kNest{1, kFirst{[]string{"a"}, 4}, 5}},
+		{"array-of-iface", [3]any{1, "a", 2}, [3]any{1, []int{2}, 3}},
+		{"iface-holding-struct", any(kFirst{1, 1}), any(kFirst{func() {}, 1})},
+	}
+	for _, sh := range shapes {
+		var cnt int
+		var inv3 func(any) T3
+		err = nject.Sequence("K3", nject.Memoize(func(x any) T3 { cnt++; return T3{Tag: uint64(cnt)} }), func(v T3) T3 { return v }).Bind(&inv3, nil)
+		if err != nil {
+			rep.add("memokey-"+sh.name, false, "bind: %v", err)
+			continue
+		}
+		var r1, r2 T3
+		s := guarded(5*time.Second, func() { r1 = inv3(sh.hashable); r2 = inv3(sh.hashable); inv3(sh.unhashble); inv3(sh.unhashble) })
+		rep.add("memokey-"+sh.name, s == "" && cnt == 3 && r1 == r2, "calls=%d (want 3: once for the hashable value, each time for the unhashable one) %s", cnt, s)
+	}
+	{
+		var cnt int
+		var inv5 func([2]any) T3
+		err = nject.Sequence("K5", nject.Memoize(func(x [2]any) T3 { cnt++; return T3{Tag: uint64(cnt)} }), func(v T3) T3 { return v }).Bind(&inv5, nil)
+		if err != nil {
+			rep.add("memokey-static-array", false, "bind: %v", err)
+		} else {
+			s := guarded(5*time.Second, func() {
+				inv5([2]any{1, "a"})
+				inv5([2]any{1, "a"})
+				inv5([2]any{1, []int{1}})
+				inv5([2]any{1, []int{1}})
+			})
+			rep.add("memokey-static-array", s == "" && cnt == 3, "calls=%d (want 3) %s", cnt, s)
+		}
+	}
+	// the same with the struct as the static parameter type
+	{
+		var cnt int
+		var inv4 func(kMid) T3
+		err = nject.Sequence("K4", nject.Memoize(func(x kMid) T3 { cnt++; return T3{Tag: uint64(cnt)} }), func(v T3) T3 { return v }).Bind(&inv4, nil)
+		if err != nil {
+			rep.add("memokey-static-struct", false, "bind: %v", err)
+		} else {
+			s := guarded(5*time.Second, func() {
+				inv4(kMid{1, 2, "b"})
+				inv4(kMid{1, 2, "b"})
+				inv4(kMid{1, []int{1}, "b"})
+				inv4(kMid{1, []int{1}, "b"})
+			})
+			rep.add("memokey-static-struct", s == "" && cnt == 3, "calls=%d (want 3) %s", cnt, s)
+		}
+	}
+}
+
+// ---- C08: concurrent inner() calls of a Parallel wrapper whose inner takes no arguments: what the providers below
+// produce during one call must not be visible in another
+
+func concParallelNoArgs(rep *concReport, goroutines, iters int) {
+	var ctr uint64
+	var mu sync.Mutex
+	seenFinal := map[uint64]int{}
+	mism := 0
+	const fan = 4
+	wrapper := nject.Parallel(func(inner func() T4, a T0) T4 {
+		var wg sync.WaitGroup
+		var sum uint64
+		wg.Add(fan)
+		for k := 0; k < fan; k++ {
+			go func() { defer wg.Done(); atomic.AddUint64(&sum, inner().Tag) }()
+		}
+		wg.Wait()
+		return T4{Tag: sum}
+	})
+	var inv func(T0) T4
+	err := nject.Sequence("PN",
+		wrapper,
+		func(a T0) T1 { return T1{Tag: atomic.AddUint64(&ctr, 1)} },
+		func(b T1) T2 { runtime.Gosched(); return T2{Tag: b.Tag} },
+		func(b T1, c T2) T4 {
+			runtime.Gosched()
+			mu.Lock()
+			seenFinal[b.Tag]++
+			if b.Tag != c.Tag {
+				mism++
+			}
+			mu.Unlock()
+			return T4{Tag: 1}
+		},
+	).Bind(&inv, nil)
+	if err != nil {
+		rep.add("isolation-parallel-noargs", false, "bind: %v", err)
+		return
+	}
+	fin := parallel(goroutines, 30*time.Second, func(g int) {
+		for i := 0; i < iters; i++ {
+			inv(T0{Tag: uint64(g*1000 + i + 1)})
+		}
+	})
+	total := uint64(goroutines * iters * fan)
+	dups := 0
+	for _, n := range seenFinal {
+		if n != 1 {
+			dups++
+		}
+	}
+	ok := fin && mism == 0 && dups == 0 && uint64(len(seenFinal)) == total && atomic.LoadUint64(&ctr) == total
+	rep.add("isolation-parallel-noargs", ok, "inner calls=%d produced=%d distinct values seen by the final function=%d seen-more-than-once=%d inconsistent pairs=%d finished=%v",
+		total, atomic.LoadUint64(&ctr), len(seenFinal), dups, mism, fin)
+}
+
+// ---- C12: DetailedError starts with the plain error text also when the process has seen two types with one name
+
+func dupTypeA() any { type dupT struct{ X int }; return func(a dupT) T1 { return T1{} } }
+func dupTypeB() any { type dupT struct{ Y string }; return func(a dupT, b T1) T1 { return b } }
+
+func detailedErrorDupTypes(rep *concReport) {
+	var inv func() T1
+	err := nject.Sequence("dup", dupTypeA(), dupTypeB()).Bind(&inv, nil)
+	if err == nil {
+		rep.add("bind-detailed-dup-types", false, "chain with unsatisfied inputs bound")
+		return
+	}
+	d := nject.DetailedError(err)
+	ok := strings.HasPrefix(d, err.Error())
+	rep.add("bind-detailed-dup-types", ok && strings.Contains(d, "more than one type"),
+		"prefix=%v mentions-duplicate-names=%v", ok, strings.Contains(d, "more than one type"))
 }
 
 func runConc(seed int64, rounds int) []string {
 	rep := &concReport{}
 	rng := rand.New(rand.NewSource(seed))
 	memoKeys(rep)
+	detailedErrorDupTypes(rep)
 	for r := 0; r < rounds; r++ {
 		g := 4 + rng.Intn(13)
 		concMemo(rep, rng, g, 1+rng.Intn(6), 20+rng.Intn(60))
@@ -398,6 +545,7 @@ func runConc(seed int64, rounds int) []string {
 		concStaticOnce(rep, g, true)
 		concIsolation(rep, g, 10+rng.Intn(40), false)
 		concIsolation(rep, 1+g/4, 5+rng.Intn(10), true)
+		concParallelNoArgs(rep, 1+g/4, 5+rng.Intn(10))
 		concBind(rep, 2+g/2, 3+rng.Intn(6))
 		if r%3 == 0 {
 			concBind(rep, 8, 36) // enough overlapping failing Binds to expose cross-talk between captures
